@@ -270,3 +270,48 @@ func c03ApiFacts(l *lean) {
 	}
 	l.def("apiHandlerSteps", "List (String × List String)", "["+strings.Join(hs, ",\n  ")+"]", rawH)
 }
+
+// DPoP: the TOP-LEVEL statements of (*DPoP).Sign (an assignment nested in an `if` is not top level: it is printed as part
+// of the `if:` entry only), and how Crypto.SignDPoP receives the token and calls Sign.
+func c03DpopFacts(l *lean) {
+	fset, f := parseFile("crypto/dpop/dpop.go")
+	var stmts []string
+	if fd := c03Method(f, "DPoP", "Sign"); fd != nil {
+		for _, st := range fd.Body.List {
+			switch x := st.(type) {
+			case *ast.IfStmt:
+				stmts = append(stmts, "if:"+c03Src(fset, x.Init)+";"+c03Src(fset, x.Cond)+"{"+strconv.Itoa(len(x.Body.List))+"}")
+			case *ast.AssignStmt:
+				stmts = append(stmts, "assign:"+c03Src(fset, x))
+			case *ast.ReturnStmt:
+				stmts = append(stmts, "return:"+c03Src(fset, x))
+			default:
+				stmts = append(stmts, "other:"+c03Src(fset, st))
+			}
+		}
+	}
+	l.def("dpopSignStmts", "List String", c03StrList(stmts), stmts)
+	fset2, f2 := parseFile("crypto/dpop.go")
+	var sd []string
+	if fd := c03Method(f2, "Crypto", "SignDPoP"); fd != nil {
+		for _, p := range fd.Type.Params.List {
+			for _, n := range p.Names {
+				sd = append(sd, "param:"+n.Name+":"+c03Src(fset2, p.Type))
+			}
+		}
+		ast.Inspect(fd.Body, func(n ast.Node) bool {
+			if call, ok := n.(*ast.CallExpr); ok {
+				fn := exprString(call.Fun)
+				if strings.HasSuffix(fn, ".Sign") || strings.HasSuffix(fn, ".getPrivateKey") {
+					var args []string
+					for _, a := range call.Args {
+						args = append(args, c03Src(fset2, a))
+					}
+					sd = append(sd, "call:"+fn+"("+strings.Join(args, ",")+")")
+				}
+			}
+			return true
+		})
+	}
+	l.def("signDPoPShape", "List String", c03StrList(sd), sd)
+}
